@@ -18,7 +18,7 @@
 From Coq Require Import NArith List Bool.
 From AV Require Import Generated.Table Spec.Utf8 Spec.Vt Spec.Sgr Spec.Io Model.Base Model.Parser
   Model.Wincon Model.Stream Model.WinconStream
-  Proofs.TableFacts Proofs.ParserSim Proofs.WinconRuns Proofs.WinconSpecRuns Proofs.WinconConsole.
+  Proofs.TableFacts Proofs.ParserSim Proofs.WinconRuns Proofs.WinconSpecRuns Proofs.WinconConsole Generated.WinconFn Proofs.WinconGen.
 Import ListNotations.
 Local Open Scope N_scope.
 
@@ -170,3 +170,16 @@ Theorem c18_example :
                     mkCC (Some 1) None [32; 119; 111; 114; 108; 100] (inl 6)] 0,
           ROk).
 Proof. vm_compute. eexists. reflexivity. Qed.
+
+(* ---- the tie by translation --------------------------------------------------------- *)
+
+(* WinconStream pulls its runs with next_bytes (Model/WinconStream: wincon_next); the function
+   translated from the Rust source (Generated/WinconFn.g_next_bytes, tools/gen_fn_wincon.py) is
+   that model, up to the order of the result components ([next_shape]), panics included *)
+Theorem c18_translated_next_bytes_is_model :
+  forall bs p c, g_next_bytes bs p c = next_shape (wincon_next bs p c).
+Proof. exact g_next_bytes_eq. Qed.
+
+Theorem c18_translated_extract_next_is_model :
+  forall bs p c, g_extract_next bs p c = extract_next bs p c.
+Proof. exact translated_extract_next_is_model. Qed.
